@@ -53,6 +53,30 @@ CHECKS = {
    text="Exhaustive enumeration of query texts given with explicit length from an exact-size heap buffer: all token strings up to length 3 over a 43-token alphabet covering every lexer rule and start condition and up to length 4 over a 26-token core (4 and 5 in the thorough tier), joined with and without blanks (~1.2 M texts quick); all byte strings of length <= 2 over all 256 bytes and of length 3 over 40 bytes; integer literals over prefix x sign x digit-string classes; unterminated strings/splices/comments at nesting <= 3 and NUL bytes. Oracle at the C boundary: a query XOR (NULL, error, non-empty message); accepted queries are executed on [] and [1] with every pull checked (true, or false with error set); run-time failures at every pull index surface through zw_result_next; the CLI turns them into a stderr message and exit status 2.",
    note="Accepted queries that diverge when executed (unbalanced closure bodies) are cut by a watchdog and counted, not judged.",
    tech="bounded exhaustive enumeration of input texts on the implementation under sanitizers; API contract oracle"),
+ "C02": dict(cat="model_checking", ref="DESIGN.md §4 C02",
+   text="Every ordered forest of up to 6 DIEs (7 thorough) split over 1-3 units - single-root units, deep chains, wide fans, last child of last unit - times every subset of leaves that carry the children flag with an immediate null entry, times DWARF version {2,3,4,5} x {32,64}-bit offsets, with and without DW_AT_sibling and with 0-3 attributes per DIE from a menu of common forms, is written as an ELF file (13 568 files quick, 60 784 thorough) and queried with a fixed battery: raw unit, raw entry, unit entry, root, parent, child, ?haschildren, !haschildren, label, offset, attribute, attribute label, attribute form, ?root, unit. Every result is compared with the generator's own model (offsets assigned by its layout), so nothing invented, dropped, duplicated or mis-parented escapes within the bound.",
+   note="lib/elfgen.py is the trusted ground truth (validated against an independent reader, readelf and libdw by lib/test_elfgen.py).",
+   tech="bounded exhaustive enumeration of input shapes; generated inputs with ground truth by construction; result-by-result comparison on the implementation"),
+ "C05": dict(cat="model_checking", ref="DESIGN.md §4 C05",
+   text="All import graphs over 2 compile units and 3 partial units (every DAG of DW_TAG_imported_unit edges among partial units; each partial unit imported into CU1 not at all / at top level / nested in a namespace / twice; CU2 importing none or all (all subsets thorough); imports of partial units at top level or one level down), 1024 files quick / 4096 thorough, plus 14 sample binaries. On every file, in raw and cooked mode, 20 law queries whose result must be empty are evaluated by the engine on every DIE (child-parent, root = end of parent chain, ?root, unit entry = entry, unit members = root child*, unit lists the DIE, same route twice equal with equal offset/label/attributes) and the exact results of entry, unit, parent, root, unit, parent*-end, ?root and child offsets are compared with the model (imports inlined, import chains carried).",
+   note="Law queries rely on the engine's own == (see the recorded C09 finding); generated bodies are small (2 ordinary DIEs per unit, one level of nesting).",
+   tech="bounded exhaustive enumeration of import graphs; law queries + model comparison on every DIE"),
+ "C06": dict(cat="model_checking", ref="DESIGN.md §4 C06",
+   text="(1) On the C05 import family: cooked child = raw children with imports replaced in place, recursively; partial units are not cooked units. (2) Integration: every chain DIE -> up to 2 hops (3 thorough) through DW_AT_specification / DW_AT_abstract_origin in every kind sequence, within one unit (ref4) and alternating between two units (ref_addr), times every presence pattern of three attribute names over all hops (8^(hops+1) chains per file), with DW_AT_declaration / DW_AT_sibling sprinkled on intermediate DIEs and the link attribute at every position: cooked attribute lists, @AT_name, @AT_decl_line, name, ?AT_external compared with the model (own attributes in order, then integrated ones it lacks, nearest hop wins, never sibling/declaration). (3) Sugar laws for every ?TAG_x / ?AT_x / ?FORM_x / ?OP_x word of the vocabulary (479 words) evaluated by the engine on every DIE, attribute and location operation of sample files, and @AT_x = attribute ?AT_x cooked value, ?AT_x <=> attribute ?AT_x, name = @AT_name on every generated DIE.",
+   note="Each DIE carries at most one of the two link attributes (chains, as the property says).",
+   tech="bounded exhaustive enumeration of attribute presence patterns over reference chains; model comparison + law queries"),
+ "C07": dict(cat="model_checking", ref="DESIGN.md §4 C07",
+   text="Enumerated product, packed into one file per DWARF version 2-5 (11 935 cases): DW_AT_const_value on variable / template_value_parameter / enumerator x 12 forms (data1/2/4/8, sdata, udata, block1 of 1/2/3/4/8 bytes, implicit_const) x 21 type configurations (signed, unsigned, boolean, signed/unsigned char, UTF, address, float, pointer, typedef/const/volatile chains of length 1-3, enum with signed/unsigned underlying type, enum without one whose enumerators are all sdata / all udata / mixed, no type) x boundary values; every attribute with a constant domain of its own x 5-6 forms x known/unknown values; unsigned and signed attributes at width boundaries; line/column numbers; addresses, flags, strings, six reference forms, location expressions; DW_AT_decl_file / call_file through generated line tables, own and integrated over one and two hops across units. Oracle: the decoding table of the property statement; uninterpreted combinations must give an error, a diagnostic or the raw bytes.",
+   note="Compiler-produced objects are not decoded independently here; only generated inputs with known truth.",
+   tech="bounded exhaustive enumeration of (attribute, form, type configuration, boundary value); decoding-table oracle"),
+ "C17": dict(cat="model_checking", ref="DESIGN.md §4 C17",
+   text="Generated location attributes: every entry of a 106-entry opcode menu (every operand class: none, 1/2/4/8-byte and LEB unsigned, signed, address, two operands, block, type-DIE references in GNU and DWARF 5 spellings) at boundary operands, alone, second and in triples, as single expressions and as lists in .debug_loc / .debug_loclists with 0-3 ranges and base-address entries, for DWARF 2-5; and 32 (64) abbreviation layouts (private / shared / unshared tables, DW_FORM_indirect, childless-with-flag). Compared with the model: elements, raw elements, lengths, addresses, per-operation offset / label / value / position, relem labels and positions, abbrev code / label / offset / ?haschildren / attribute (name, form, offset) of every DIE, one abbreviation unit per distinct table listing each abbreviation once, and laws (length = #elem, @AT_location = attribute value, abbreviation labels = DIE attribute labels, tag and children flag match, cooked = raw).",
+   note="Operands that dwgrep leaves to libdw-internal pointers (const_type, entry_value, second operand of implicit_pointer) are not compared.",
+   tech="bounded exhaustive enumeration of opcodes x operand boundaries and abbreviation layouts; model comparison"),
+ "C18": dict(cat="model_checking", ref="DESIGN.md §4 C18",
+   text="Generated symbol tables with one symbol per (type 0-15 x binding 0-15 x visibility 0-3) = 1024 plus undefined / common / absolute / section / nameless / 300-character / non-ASCII / huge-valued symbols, for the four machines with their own constant family (ARM, SPARC, PARISC, MIPS) and three without, as ET_REL and ET_EXEC (ET_DYN thorough): symbol list, order, positions, name, address, size, label, binding, visibility of every entry compared with the stored fields; renderings of every code that elf.h names compared with elf.h parsed independently of known-elf.awk; machine-specific codes of different machines never equal, common codes equal; sample objects of four architectures compared with readelf -sW.",
+   note="Codes without a name in elf.h only have to keep their numeric value.",
+   tech="exhaustive enumeration of symbol field combinations; generated inputs with ground truth; cross-machine equality matrix"),
 }
 NOT_YET = "check under construction in this session; not claimed until it has run to completion on the unchanged tree"
 
